@@ -66,10 +66,15 @@ package flamego
 //@   partial-anchors
 //@   props C13 C05 C17 C03 C15 C14
 //@   requires rwInv(w)
-//@   requires 100 <= s && s <= 999
+// an invalid status code is refused before anything is used up: the writer is as it was and a valid status can follow
+//@   panics s < 100 || s > 999
+//@   ensures 100 <= s && s <= 999
 //@   modifies w.status, w.writeHeaderOnce.fired, w.beforeOnce.fired, w.hookCalls, w.hookOrder, w.hdrAtHooks, w.nHooksRun,
 //@            w.ResponseWriter.hdrCount, w.ResponseWriter.hdrSent, w.ResponseWriter.firstStatus, w.ResponseWriter.bodyAtHdr, w.ResponseWriter.ctAtHdr
 // the hooks run inside their own Once, before the Once that forwards the status
+// "the reported status is 0 until then": when the status line is handed to the underlying writer the wrapper does not
+// report one yet (it is published after the underlying writer has taken it)
+//@   assert[C13,C03] before WriteHeader#0: w.status == 0
 //@   ghost after Do#0: w.hdrAtHooks = ite(old(w.beforeOnce.fired), w.hdrAtHooks, w.ResponseWriter.hdrCount)
 //@   ghost after Do#0: w.nHooksRun = ite(old(w.beforeOnce.fired), w.nHooksRun, len(w.beforeFuncs))
 //@   ensures rwInv(w)
